@@ -62,3 +62,12 @@ Definition api_sites_ref (v : val) : val :=
 
 (* several pools at once: [[rule; exc; limits; prots]; ...] -> [[raised; peptides]; ...] *)
 Definition api_pool_multi (v : val) : val := VL (map api_pool (getL v)).
+
+(* [rule; exc; s] -> [raised; [[site; [a; b]]; ...]]   (find_all_enzymatic_cleave_sites_with_ranges) *)
+Definition api_sites_range (v : val) : val :=
+  let r2 := match lookup (getS (argn 0 v)) range_rules with Some x => x | None => [] end in
+  match sites_with_range (get_rule (argn 0 v)) r2 (resolve_exc (argn 1 v)) (getS (argn 2 v)) with
+  | None => VL [VZ 1; VL []]
+  | Some l => VL [VZ 0; VL (map (fun sr => VL [VZ (Z.of_nat (fst sr));
+                                   VL [VZ (Z.of_nat (fst (snd sr))); VZ (Z.of_nat (snd (snd sr)))]]) l)]
+  end.
